@@ -2707,6 +2707,8 @@ func (s *Server) serveConnCounted(c net.Conn, countConcurrency bool) error {
 			// Acquire a new ctx because the old one will still be in use by the timeout out handler.
 			ctx = s.acquireCtx(c)
 			timeoutResponse.CopyTo(&ctx.Response)
+			// The old ctx, which refers to c, stays with that handler.
+			abandonPerIPConn(c)
 			if streamedBody {
 				// The timed out handler still owns the streamed request body, which
 				// reads from this connection, so the next request cannot be found on it.
